@@ -43,6 +43,8 @@ type Program struct {
 	paramFrom     map[*ssa.Function]bool
 	paramCache    map[*ssa.Parameter]Interval
 	retBusy       map[*ssa.Function]bool
+	nilnil        map[*ssa.Function]int
+	nilnilBusy    map[*ssa.Function]bool
 }
 
 func repoDir() string {
